@@ -10,6 +10,7 @@ ir = IR(sys.argv[1])
 eng = Engine(ir, solver_timeout_ms=int(os.environ.get('ST','15000')))
 intrinsics.install(eng); models.install(eng)
 eng.params = json.loads(sys.argv[3]) if len(sys.argv)>3 else {}
+eng.arith = os.environ.get('ARITH','bv')
 eng.deadline = time.time()+float(sys.argv[4]) if len(sys.argv)>4 else None
 st = eng.initial_state()
 pk = sys.argv[2].rsplit(".",1)[0]
